@@ -123,8 +123,13 @@ func ListQueries(r *ev.Run) (evals int64) {
 	wantH := map[string][]string{}
 	for i, a := range prefixNames {
 		ck.SetClientState(ctx, a, &tsstypes.ClientState{TssAddress: "cosmos1qypqxpq9qcrsszg2pvxq6rs0zqg3yyc5lzv7xu"})
+		hts := []clienttypes.Height{}
 		for j := 0; j <= i%3; j++ {
-			ht := clienttypes.NewHeight(uint64(i%2), uint64(10*(i+1)+j))
+			hts = append(hts, clienttypes.NewHeight(uint64(i%2), uint64(10*(i+1)+j)))
+		}
+		// heights whose 16-byte key contains the path separator byte 0x2f ('/') in the height or in the revision number
+		hts = append(hts, clienttypes.NewHeight(0, 47), clienttypes.NewHeight(0, 0x2f00+uint64(i)), clienttypes.NewHeight(47, 5), clienttypes.NewHeight(0x2f2f, 0x2f))
+		for _, ht := range hts {
 			ck.SetClientConsensusState(ctx, a, ht, &xibctmtypes.ConsensusState{Timestamp: time.Unix(int64(1000+i), 0), Root: []byte(a), NextValidatorsHash: make([]byte, 32)})
 			wantH[a] = append(wantH[a], fmt.Sprintf("%s=%s", ht, a))
 		}
